@@ -512,5 +512,8 @@ def tarfile_listing(data):
             b = f.read()
             d["size"] = len(b)
             d["sha"] = hashlib.sha256(b).hexdigest()
+        # SCHILY.xattr.<key>=<value> records (values are raw bytes, tarfile hands them over surrogate-escaped)
+        d["xattrs"] = {k[len("SCHILY.xattr."):].encode("utf-8", "surrogateescape"): v.encode("utf-8", "surrogateescape")
+                       for k, v in (m.pax_headers or {}).items() if k.startswith("SCHILY.xattr.")}
         res[canon(name) if canon(name) is not None else name] = d
     return res
